@@ -41,6 +41,7 @@ type Value struct {
 	Fields []MsgField `json:"fields,omitempty"` // message: present fields sorted by index
 	Disc   uint8      `json:"disc,omitempty"`   // union
 	Body   *Value     `json:"body,omitempty"`
+	Also   []MsgField `json:"also,omitempty"` // union: further populated members (sender side only; the lowest discriminator wins)
 	Nil    bool       `json:"nil,omitempty"`  // array/map: nil rather than empty (sender side only)
 	Wide   bool       `json:"wide,omitempty"` // marker: contains a long string/array (cost control)
 }
@@ -113,11 +114,18 @@ func normalise(s *schema.Schema, t schema.Type, v Value, dropDep bool) Value {
 		}
 		return out
 	case schema.KUnion:
-		out := Value{Disc: v.Disc}
-		if v.Body != nil {
+		// a union carries exactly one member: the populated one with the lowest discriminator
+		disc, body := v.Disc, v.Body
+		for i := range v.Also {
+			if body == nil || v.Also[i].Index < disc {
+				disc, body = v.Also[i].Index, &v.Also[i].V
+			}
+		}
+		out := Value{Disc: disc}
+		if body != nil {
 			for _, b := range d.Branches {
-				if b.Disc == v.Disc {
-					nb := normalise(s, schema.Type{Named: b.Def.Name}, *v.Body, dropDep)
+				if b.Disc == disc {
+					nb := normalise(s, schema.Type{Named: b.Def.Name}, *body, dropDep)
 					out.Body = &nb
 				}
 			}
